@@ -33,8 +33,10 @@ func TestMain(m *testing.M) {
 
 func genStep(poolSize int) *rapid.Generator[step] {
 	return rapid.Custom(func(t *rapid.T) step {
-		k := rapid.IntRange(0, 16).Draw(t, "kind")
+		k := rapid.IntRange(0, 17).Draw(t, "kind")
 		switch {
+		case k == 17:
+			return step{Kind: "longpoll"}
 		case k < 6:
 			return step{Kind: "upload", Blob: rapid.IntRange(0, poolSize-1).Draw(t, "blob")}
 		case k < 10:
